@@ -9,7 +9,7 @@ Rd(k, var) == [NoOp EXCEPT !.op = "get", !.k = k, !.var = var]
 Shut == [NoOp EXCEPT !.op = "shutdown"]
 
 Cfg(max, q, buffer) == [max |-> max, shards |-> 2, qsize |-> q, pool |-> 1, buffer |-> buffer, wf_base |-> 1, wf_mod |-> 1, wf_ttl |-> 0,
-                        clock0 |-> 10, hash |-> "id", dwf |-> FALSE]
+                        clock0 |-> 10, hash |-> "id", dwf |-> FALSE, counters |-> 64]
 
 \* --- time to live: put with TTL, upserts changing / removing it from two callers, sweeper, clock (C03 C08 C09 C10)
 ProgsTtl == [c \in {"c0", "c1"} |-> IF c = "c0" THEN <<P("put", 1, 1, 1, 1), P("pou", 1, -1, -1, 2), Rd(1, "get")>>
